@@ -553,6 +553,12 @@ Definition meth_ok (m : meth) : bool :=
    apply and its size is STRICTLY above the maximum file size; an archive of exactly that size is served *)
 Definition open_refused (lim : option limits) (archive_size : Z) : bool := file_too_large lim archive_size.
 
+(* zip.go:141-150 the walker copies a file and compares the copied byte count with the size Lstat announced (a symbolic
+   link is exempt; trees here have none): does archiving ONE file succeed, given the announced size and the bytes the
+   back end actually serves?  The comparison is a GENERATED fact (Gen.v zip_walker_checks_copied_size). *)
+Definition zip_file_ok (announced served : Z) : bool :=
+  if zip_walker_checks_copied_size then announced =? served else true.
+
 (* ------------------------------------------------------------------ Close (resource.go:23-34, files.go VFS.Close) *)
 (* (returned nil, closed flag set) as a function of whether closing the underlying archive file fails; an unrecognised
    shape is given the worst behaviour (reports success without setting the flag). *)
@@ -579,6 +585,7 @@ Inductive case :=
 | CView (k : vkind) (es : list entry) (ops : list (vop * path)) (obs : list vobs)
 | CClosed (meth_name : string) (obs : cobs)
 | COpen (lim : option limits) (archive_size : Z) (refused_too_large : bool)
+| CZipSize (announced served : Z) (zip_succeeded : bool)
 | CClose (underlying_fails : bool) (returned_nil : bool) (serves_nothing : bool).
 
 Definition ures_eqb (a b : ures) : bool :=
@@ -650,5 +657,6 @@ Definition check_case (c : case) : bool :=
   | CView k es ops obs => vobs_list_eqb (view_run k (view_index k es) [] ops) obs
   | CClosed n o => check_closed n o
   | COpen lim sz rf => Bool.eqb (open_refused lim sz) rf
+  | CZipSize a sv ok => Bool.eqb (zip_file_ok a sv) ok
   | CClose u rn sn => let '(a, b) := close_model u in Bool.eqb a rn && Bool.eqb b sn
   end.
